@@ -111,7 +111,7 @@ def quantise(kind, v, how):
 
 
 def both_sequences_per_variable(spell, kinds, n, nsig):
-    """xmin and xmax both handed over as Python lists / tuples with one entry per variable (the known finding below)"""
+    """xmin and xmax both handed over as Python lists / tuples with one entry per variable (the class of fixed finding F35)"""
     return n != nsig and all(spell[k] == 'variable' and kinds[k]['container'] in ('list', 'tuple') for k in ('xmin', 'xmax'))
 
 
@@ -130,8 +130,6 @@ def gen_problem(rng, tier_big=False, shapes=None, profile='legacy', spell=None, 
     spell = dict(spell) if spell else {k: rng.choice(('scalar', 'signal', 'variable')) for k in ('xmin', 'xmax', 'move')}
     if kinds is None:
         kinds = random_kinds(rng, shapes, spell, profile)
-        if both_sequences_per_variable(spell, kinds, n, nsig):
-            kinds['xmax'] = dict(container='array', num='f64')
     int_state = any(k in INT_KINDS for k in kinds['states'])
     lo0 = rnd(rng, 0.2, 1.0) if positive else rnd(rng, -2.0, 1.0)
 
@@ -459,12 +457,8 @@ K_STALL_TEXT = ('subsolv gives up after maxittt = 400 Newton steps per epsi leve
                 'optimum; inherited from the reference algorithm (undamped Newton + residual-norm backtracking), no small patch')
 
 
-K_SEQ = ('minimize_mma', 'runs without raising on a valid convex problem',
-         'xmin and xmax both given per variable as Python lists / tuples (more variables than signals)')
-K_SEQ_TEXT = ('per-variable bounds are documented ("can be a vector") and a per-SIGNAL Python list is expanded into an array, but a Python '
-              'list / tuple with one entry per VARIABLE is kept as it is: with both xmin and xmax given that way MMA.mmasub evaluates '
-              'self.xmax - self.xmin on two lists -> TypeError; small patch: self.xmin = np.asarray(self.xmin, dtype=float) (same for xmax, move) '
-              'after the expansion in MMA.response')
+# class of the fixed finding F35 (54bd286): reported with its original triple when it comes back
+K_SEQ_CLASS = 'xmin and xmax both given per variable as Python lists / tuples (more variables than signals)'
 
 
 def kinds_class(kinds):
@@ -654,12 +648,11 @@ def oracle_run(ctx, rec, prob, label, check_convergence=True):
         ctx.violation('impl-violates', site, pred, icls or cls, dict(pj, iteration=k, **extra), expected=expected, got=got)
     kinds = prob_kinds(prob)
     kcls = kinds_class(kinds)
-    known_seq = isinstance(rec.error, TypeError) and both_sequences_per_variable(prob['spell'], kinds, rec.n, len(prob['shapes']))
-    if rec.error is not None and not known_seq:
-        bad('minimize_mma', 'runs without raising on a valid convex problem', None, got=repr(rec.error)[:500], kinds=kcls)
-    if known_seq:
-        ctx.count('per_variable_bounds_as_python_sequences')
-        ctx.violation('impl-violates', *K_SEQ, dict(pj), expected='runs', got=repr(rec.error)[:300])
+    if rec.error is not None:
+        # (fixed finding F35 had the class 'xmin and xmax both given per variable as Python lists / tuples (more variables than signals)')
+        seq = both_sequences_per_variable(prob['spell'], kinds, rec.n, len(prob['shapes'])) and isinstance(rec.error, TypeError)
+        bad('minimize_mma', 'runs without raising on a valid convex problem', None, got=repr(rec.error)[:500], kinds=kcls,
+            icls=K_SEQ_CLASS if seq else None)
     if f is None:
         return
     lens = [1 if sh == 0 else max(sh, 0) for sh in prob['shapes']]
@@ -672,9 +665,9 @@ def oracle_run(ctx, rec, prob, label, check_convergence=True):
         if not np.array_equal(exp, getattr(f, nm)):
             bad('MMA.response', f'{nm} given as {spell} lands on the right variables', None, expected=exp.tolist(),
                 got=getattr(f, nm).tolist(), icls='bounds:' + spell, kinds=kcls)
-        # a scalar / per-signal specification is expanded by MMA.response: into floats, whatever the kinds of the states
+        # MMA.response leaves float64 vectors, whatever the kinds of the states and of the specification (a scalar move stays a scalar)
         dt = getattr(f, nm + '_dt')
-        if dt_tag(dt) is None or ((spell == 'signal' or (spell == 'scalar' and nm != 'move')) and dt != np.float64):
+        if dt_tag(dt) is None or (not (spell == 'scalar' and nm == 'move') and dt != np.float64):
             bad('MMA.response', f'expanded {nm} is a float64 vector', None, expected='float64', got=str(dt), icls='bounds:' + spell, kinds=kcls)
     if f.cumlens != [int(v) for v in rec.cum]:
         bad('MMA.response', 'cumulative lengths of the variable signals', None, expected=[int(v) for v in rec.cum], got=f.cumlens)
@@ -832,7 +825,22 @@ def translate(ctx):
         ctx.violation('proof', 'pymoto/utils.py', 'generated _concatenate_to_array / _split_from_array equal the typed model of Model/MMAvars.v '
                       '(result float64 whatever the dtypes of the entries)', 'translator/bridge', dict(error=err2[-3000:]),
                       theorem='BridgeC10.UtilsBridge.gen_concat_dtype_float64')
-    return ok and ok2
+    # ---- MMA.response: expansion of xmin / xmax / move, float conversion, write-back (typed model of Model/MMAvars.v)
+    ok3, err3 = True, ''
+    try:
+        pth = ctx.write_gen('VarsGen.v', gen_C10.generate_vars(vlib.REPO))
+        ok3, _, err3 = vlib.compile_file(ctx, pth, 'gen:VarsGen.v (translated from MMA.response in pymoto/common/mma.py) compiles', 'translator')
+    except py2coq.Unsupported as e:
+        ctx.obligation('gen:VarsGen.v translation of MMA.response', 'translator', False, str(e))
+        ok3, err3 = False, str(e)
+    if ok3:
+        bp = os.path.join(ctx.bridge_dir, 'VarsBridge.v')
+        ok3, _, err3 = vlib.compile_file(ctx, bp, 'bridge:VarsBridge (generated bound / move-limit expansion and write-back of MMA.response = Model/MMAvars.v '
+                                         'typed model; expanded bounds float64, per-signal values land untruncated on a float64 design vector)', 'bridge')
+    if not ok3:
+        ctx.violation('proof', 'pymoto/common/mma.py', 'generated variable handling of MMA.response equals the typed model of Model/MMAvars.v',
+                      'translator/bridge', dict(error=err3[-3000:]), theorem='BridgeC10.VarsBridge')
+    return ok and ok2 and ok3
 
 
 def load_corpus():
@@ -859,7 +867,10 @@ def run(ctx):
                 'mixing scalars and 1-D arrays (n <= 15 quick / 36 thorough), 1-3 constraints (linear, separable quadratic, reciprocal, '
                 'non-separable squared-linear), bounds and move limit each spelled as scalar / per signal / per variable, both MMA versions '
                 '(also odd spellings of the version string), random asymptote parameters, starting points partly on the bounds, responses '
-                'that ignore a signal (None sensitivity).  One case = one recorded iteration (mmasub + subsolv call) or one variable-'
+                'that ignore a signal (None sensitivity).  Kinds of the operands: initial states as Python int / float, numpy int32 / int64 / float32 / float64 '
+                'scalars and 1-D arrays (profiles legacy / mixed / all-int / all-int32 / all-float32), bounds and move limit as Python or numpy scalars, lists, tuples '
+                'and arrays of integer and float kinds (per signal and per variable); 11 deliberately chosen corpus problems (kinds_*.json) cover every family on every seed.  '
+                'One case = one recorded iteration (mmasub + subsolv call) or one variable-'
                 'handling record of a run; non-trivial when n >= 2 or the iteration has a history (k >= 2); distinct by (run, iteration, aspect). '
                 'Corpus first (edge cases: single scalar, empty array signal, 1-element array, all variables on bounds, the witness of the '
                 'subsolv give-up finding); a malformed stream compares exception classes only.')
@@ -867,8 +878,10 @@ def run(ctx):
         'theorems are over exact real arithmetic; floats are tied by the 1e-9 relative comparison in Q on recorded inputs',
         'the starting design lies in [xmin, xmax], xmin < xmax, 0 < move, 0 < albefa < 1, asyinit > 0, asybound > 0 (what the generator produces; '
         'asybound >= 1 for the two-sided clamp)',
-        'variable signals hold Python/numpy scalars or 1-D float arrays (an n-D array is flattened by the write-back: its shape is not restored); '
-        'modules do not modify the variable signals',
+        'variable signals hold Python/numpy real scalars or 1-D arrays of dtype int32 / int64 / float32 / float64 (an n-D array is flattened by the write-back: its shape '
+        'is not restored; a 0-d array as a bound raises TypeError in len() and is not generated); modules do not modify the variable signals',
+        'typed model: astype is a parameter of the theorems (only float64 -> float64 = identity is used); over Q it is truncation towards zero for integer targets and the '
+        'identity for float targets; integer operands are below 2^53 and float32 operands are multiples of 1/64, so every conversion to float64 is exact',
         'the admissible interval beta - alfa is wider than 2e-10, the margin hard-coded in subsolv (C10_subsolv_init_interior)',
         'number of constraints m >= 1 (np.min of an empty array raises for m = 0) and m + n < 100 (epsimin*sqrt(m+n) stays off the powers of ten)',
         'CONVERGENCE IS VALIDATED, NOT PROVED: "iterates approach the optimum, constraints end up satisfied" is checked by the oracle on generated '
@@ -881,7 +894,10 @@ def run(ctx):
     ctx.trusted += [
         'Print Assumptions: the real-number theorems rely on ClassicalDedekindReals.sig_forall_dec and '
         'FunctionalExtensionality.functional_extensionality_dep (Coq stdlib Reals / Coquelicot); the variable-handling theorems are closed under the global context',
-        'tools/gen_C10.py (fail-closed translator: component reading of elementwise numpy code, decimal literals read as rationals)',
+        'tools/gen_C10.py (fail-closed translator: component reading of elementwise numpy code, decimal literals read as rationals; array-bookkeeping dialect for the variable '
+        'handling of MMA.response) and tools/gen_utils.py (pymoto/utils.py)',
+        'numpy dtype semantics embodied in Model/MMAvars.v (np.append = concatenate with promotion, zeros_like / ones_like keep the dtype, slice assignment casts to the target dtype): '
+        'the promotion table is validated against numpy on every run, the rest by the exact dtype + value correspondence',
         'same polymorphic model term interpreted over R (theorems) and over Q (evaluation); no Q2R transfer lemma',
         'monkeypatching of pymoto.common.mma.subsolv / residual / MMA.mmasub records faithfully (wrappers only copy arguments and results)',
     ]
@@ -940,13 +956,24 @@ def run(ctx):
         oracle_run(ctx, rec, prob, label, check_convergence=conv)
         if rec.error is not None or rec.first is None:
             continue
-        add((label, 'vars'), vars_checks(rec, prob), n >= 2)
+        try:
+            add((label, 'vars'), vars_checks(rec, prob), n >= 2)
+        except (OverflowError, ValueError) as e:
+            ctx.violation('correspondence', 'pymoto.common.mma', 'recorded designs and bounds are finite', vclass(prob),
+                          dict(label=label, problem=prob, error=repr(e)))
+            continue
         ks = sorted(set(([0, 1, 2] if quick else [0, 1, 2, 3]) + [rng.randrange(3, max(4, len(rec.calls))) for _ in range(1 if quick else 3)] + [len(rec.calls) - 1]))
         if only_its is not None and quick:      # corpus entries about the variable handling: few iterations are compared in the quick tier
             ks = sorted(set(only_its))
         for k in ks:
             if 0 <= k < len(rec.calls):
-                add((label, 'iter', k), iteration_checks(rec, prob, k, full=(not quick) or k in (0, 2)), n >= 2 or k >= 2)
+                try:
+                    triple = iteration_checks(rec, prob, k, full=(not quick) or k in (0, 2))
+                except (OverflowError, ValueError) as e:      # inf / nan among the recorded values: nothing to evaluate over Q
+                    ctx.violation('correspondence', 'pymoto.common.mma', 'recorded values of an iteration are finite', vclass(prob),
+                                  dict(label=label, iteration=k, problem=prob, error=repr(e)))
+                    continue
+                add((label, 'iter', k), triple, n >= 2 or k >= 2)
                 if not normal_exit(rec.calls[k].sub):
                     ctx.count('iterations_checked_with_abnormal_subsolv_exit')
         if rec.calls and len(sub_samples) < (6 if quick else 40):
